@@ -41,6 +41,24 @@ def node_at(t, sv, cur=0):
     return node_at(t[2], sv, cur + 1 + tsize(t[1]))
 
 
+def switch_sibling_gone(t, sv, alive_by_sv, cur=0):
+    """`sv` lies under a switch node whose OTHER member subtree has no live worker"""
+    if t[0] in 'TP':
+        return False
+    la, lb = cur + 1, cur + 1 + tsize(t[1])
+    in_a = la <= sv < lb
+    in_b = lb <= sv < lb + tsize(t[2])
+    if t[0] == 'W' and (in_a or in_b):
+        lo, hi = (lb, lb + tsize(t[2])) if in_a else (la, lb)
+        if not any(lo <= x < hi for x in alive_by_sv):
+            return True
+    if in_a:
+        return switch_sibling_gone(t[1], sv, alive_by_sv, la)
+    if in_b:
+        return switch_sibling_gone(t[2], sv, alive_by_sv, lb)
+    return False
+
+
 def mk(tree, fail=None, klass='', n=20, in_kb=1, out_kb=0, delay_ms=0, cap=64, stop_after=1, hang_s=20.0):
     return dict(tree=tree, fail=list(fail) if fail else None,
                 proc=dict(klass=klass, n=n, in_kb=in_kb, out_kb=out_kb, delay_ms=delay_ms, cap=cap, stop_after=stop_after,
@@ -66,6 +84,12 @@ def gen_cases(rng: random.Random, tier: str):
     cases.append(mk(['S', ['P', 1], ['P', 1]], None, 'single-worker-big-results', n=40, out_kb=50, delay_ms=2, cap=64))
     # (d) F19 class: multi-worker first stage, big results, residual > pipe
     cases.append(mk(['S', ['P', 3], ['P', 1]], None, 'multiworker-big-results', n=60, out_kb=50, delay_ms=5, cap=64))
+    # (d') F24 class: ensemble / switch over process members, abandoned inputs > pipe buffer
+    cases.append(mk(['E', ['P', 1], ['P', 1]], None, 'ensemble-abandon-gt-pipe', n=rng.choice([400, 600]), in_kb=2, delay_ms=2, cap=1024))
+    cases.append(mk(['W', ['P', 1], ['P', 1]], None, 'switch-abandon-gt-pipe', n=rng.choice([400, 600]), in_kb=2, delay_ms=2, cap=1024))
+    cases.append(mk(['E', ['P', 1], ['P', 1]], None, 'ensemble-big-results', n=60, out_kb=50, delay_ms=5, cap=64))
+    # (d'') F19-like remainder: switch members share the output queue
+    cases.append(mk(['W', ['P', 1], ['P', 1]], None, 'switch-big-results', n=60, out_kb=50, delay_ms=5, cap=64))
     # (e) small workloads on assorted shapes (exit, re-enter, serve again)
     for t in [['E', ['P', 1], ['P', 2]], ['W', ['P', 1], ['T', 1]], ['S', ['P', 2], ['E', ['T', 1], ['P', 1]]]]:
         cases.append(mk(t, None, 'small', n=rng.choice([3, 6, 10]), cap=8, stop_after=rng.choice([1, 2, 100])))
@@ -74,6 +98,9 @@ def gen_cases(rng: random.Random, tier: str):
             t = rng.choice(shapes)
             cases.append(mk(t, None, 'small', n=rng.choice([3, 10, 30]), in_kb=rng.choice([1, 4]), cap=rng.choice([4, 16]),
                             stop_after=rng.choice([1, 3, 100]), delay_ms=rng.choice([0, 1])))
+    # the classes that may run into the hang bound go first (they decide the wall time)
+    slow = ('multiworker-big-results', 'switch-big-results')
+    cases.sort(key=lambda c: 0 if c['proc']['klass'] in slow else 1)
     return cases
 
 
@@ -101,22 +128,25 @@ def classify_hang(case, diag):
         return 'other' if fs else 'unknown'
 
     if alive and not diag.get('onboard_alive'):
-        writers = 0
-        ok = True
+        kinds = set()
         for sv, ws in by_sv.items():
             nd = node_at(case['tree'], sv)
             for w in ws:
                 r = role(w)
-                # a ProcessServlet with >= 2 workers of which at least one has left (it forwarded the sentinel)
-                # and this one is still there, blocked writing a result nobody reads any more
+                if r == 'rebroadcast':
+                    continue              # the reader of that pipe, blocked behind the blocked writer's write lock
                 if r in ('writer', 'unknown') and nd is not None and nd[0] == 'P' and nd[1] >= 2 and len(ws) < nd[1]:
-                    writers += 1
-                elif r == 'rebroadcast':
-                    pass                  # the reader of that pipe, blocked behind the sibling's write lock
+                    # a ProcessServlet with >= 2 workers of which at least one has left (it forwarded the sentinel)
+                    # and this one is still there, blocked writing a result nobody reads any more
+                    kinds.add('sibling-writer-blocked-multiworker')
+                elif r in ('writer', 'unknown') and switch_sibling_gone(case['tree'], sv, by_sv):
+                    # member of a SwitchServlet (members share the output queue): another member has left (its
+                    # sentinel stopped the reader of the shared queue), this one is blocked writing a result
+                    kinds.add('switch-member-writer-blocked')
                 else:
-                    ok = False
-        if ok and writers:
-            return 'sibling-writer-blocked-multiworker'
+                    kinds.add('other')
+        if len(kinds) == 1 and 'other' not in kinds:
+            return kinds.pop()
     if diag.get('onboard_alive'):
         return 'onboard-thread-blocked'
     return 'other:' + ','.join(alive)[:60]
